@@ -124,6 +124,13 @@ type confNtfnSet struct {
 	// (funds sent to a previously confirmed script) no additional
 	// notification is registered which would lead to an inconsistent state.
 	details *TxConfirmation
+
+	// reorgedHeight is the lowest height that was disconnected from the
+	// chain since the first registration for this request, or zero if no
+	// block has been disconnected since. A historical rescan that was
+	// dispatched for the request may have looked at blocks from this
+	// height onwards that are no longer part of the active chain.
+	reorgedHeight uint32
 }
 
 // newConfNtfnSet constructs a fresh confNtfnSet for a group of clients
@@ -152,6 +159,13 @@ type spendNtfnSet struct {
 	// script that we'll use to determine if it has already been spent at
 	// the time of registration.
 	details *SpendDetail
+
+	// reorgedHeight is the lowest height that was disconnected from the
+	// chain since the first registration for this request, or zero if no
+	// block has been disconnected since. A historical rescan that was
+	// dispatched for the request may have looked at blocks from this
+	// height onwards that are no longer part of the active chain.
+	reorgedHeight uint32
 }
 
 // newSpendNtfnSet constructs a new spend notification set.
@@ -863,6 +877,25 @@ func (n *TxNotifier) UpdateConfDetails(confRequest ConfRequest,
 	// continue to watch for them at tip.
 	confSet.rescanStatus = rescanComplete
 
+	// The historical rescan runs concurrently with the chain moving on, so
+	// the block it found the transaction/output script in may have been
+	// disconnected in the meantime. Every block connected since the request
+	// was registered has been filtered at tip, so if the request had
+	// confirmed in one that is still part of the chain we would have
+	// exited above. Therefore, details found at or above a height that was
+	// disconnected since can only refer to a stale block, and we'll treat
+	// them as not found and keep waiting for the confirmation at tip.
+	if details != nil && confSet.reorgedHeight != 0 &&
+		details.BlockHeight >= confSet.reorgedHeight {
+
+		Log.Debugf("Ignoring stale confirmation details for %v found "+
+			"during historical dispatch: block %v at height %d "+
+			"has been reorged out of the chain", confRequest,
+			details.BlockHash, details.BlockHeight)
+
+		details = nil
+	}
+
 	// The notifier has yet to reach the height at which the
 	// transaction/output script was included in a block, so we should defer
 	// until handling it then within ConnectTip.
@@ -1284,6 +1317,27 @@ func (n *TxNotifier) UpdateSpendDetails(spendRequest SpendRequest,
 	// prevent the notifier from advancing its height underneath us.
 	n.Lock()
 	defer n.Unlock()
+
+	// The historical rescan runs concurrently with the chain moving on, so
+	// the block it found the spending transaction in may have been
+	// disconnected in the meantime. Every block connected since the request
+	// was registered has been filtered at tip, so a spend within one that
+	// is still part of the chain is already known. Therefore, details found
+	// at or above a height that was disconnected since can only refer to a
+	// stale block, and we'll treat them as not found and keep waiting for
+	// the spend at tip.
+	spendSet, ok := n.spendNotifications[spendRequest]
+	if ok && details != nil && spendSet.details == nil &&
+		spendSet.reorgedHeight != 0 &&
+		uint32(details.SpendingHeight) >= spendSet.reorgedHeight {
+
+		Log.Debugf("Ignoring stale spend details for %v found during "+
+			"historical dispatch: spending height %d has been "+
+			"reorged out of the chain", spendRequest,
+			details.SpendingHeight)
+
+		details = nil
+	}
 
 	return n.updateSpendDetails(spendRequest, details)
 }
@@ -1870,6 +1924,24 @@ func (n *TxNotifier) DisconnectTip(blockHeight uint32) error {
 	}
 	n.currentHeight--
 	n.reorgDepth++
+
+	// Results of historical rescans that are yet to be delivered may refer
+	// to the block being disconnected, so we'll note the lowest height
+	// disconnected for every request in order to recognize them as stale.
+	for _, confSet := range n.confNotifications {
+		if confSet.reorgedHeight == 0 ||
+			blockHeight < confSet.reorgedHeight {
+
+			confSet.reorgedHeight = blockHeight
+		}
+	}
+	for _, spendSet := range n.spendNotifications {
+		if spendSet.reorgedHeight == 0 ||
+			blockHeight < spendSet.reorgedHeight {
+
+			spendSet.reorgedHeight = blockHeight
+		}
+	}
 
 	// With the block disconnected, we'll update the confirm and spend hints
 	// for our notification requests to reflect the new height, except for
